@@ -6,6 +6,7 @@ from harness.asmcheck import Case, framed
 from harness.props import c01
 
 DELIMS = {"dq": '"', "slash": "/", "sq": "'", "bar": "|"}
+DELIMS.update({"d%d" % c: chr(c) for c in (35, 91, 60, 36, 37, 33, 58, 46, 42, 40, 88, 64, 93, 62, 44, 43, 45, 61, 63, 94, 95, 96, 123, 126, 48, 97)})
 
 
 def fcc(chars, dname):
